@@ -223,9 +223,11 @@ func rowsEqModDefaults(c *sim.Ctx, t *sq.Table, cols []string, want, got [][]sq.
 			if valEqRelaxed(want[i][j], got[i][j]) {
 				continue
 			}
-			if j < len(cols) && classify(t, cols[j], want[i][j], got[i][j]) == "default-affinity" {
-				c.Inc("default_affinity_seen", 1)
-				continue
+			if j < len(cols) {
+				if cl := classify(t, cols[j], want[i][j], got[i][j]); cl == "default-affinity" || cl == "default-true-false" {
+					c.Inc("default_literal_findings_seen", 1)
+					continue
+				}
 			}
 			return false, i
 		}
